@@ -55,10 +55,11 @@ def run(ctx):
                       'chain label %d depends on a capacity parameter: %s' % (n, short(lab, 200)), ctx.where(fr.body, bb))
         # positive control: the capacities do reach the take counts / loop bounds
         uses = 0
-        for bb, t in ctx.calls(new):
-            if callee_decl(t) in ('std::iter::Iterator::take', 'std::iter::Iterator::map'):
-                if any(depends_on_param(a, new, {1, 2}) for a in ctx.args(new, bb)):
-                    uses += 1
+        # (in the constructor itself, in private helpers of it and in the closures it hands to iterator consumers; arguments lifted
+        # into the constructor's vocabulary)
+        for (fr, bb, t, a_) in ctx.flat_calls(new, lambda n, t: callee_decl(t) in ('std::iter::Iterator::take', 'std::iter::Iterator::map')):
+            if any(depends_on_param(a, new, {1, 2}) for a in a_):
+                uses += 1
         rep.floor('R-C12-1', 'capacity uses as extents (positive control)', uses, 3)
         # chains consumed as prefixes only
         for bb, t in ctx.calls(new):
